@@ -1,6 +1,7 @@
 import LyModel.Props.C07
 import LyModel.Props.C07Valdiff
 import LyModel.Props.C07Completion
+import LyModel.Props.C07Fix
 #print axioms LyModel.Props.C07.validate_idempotent
 #print axioms LyModel.Props.C07.dflt_flag_sound
 #print axioms LyModel.Props.C07.is_default_iff_rfc6243_fails
@@ -34,3 +35,6 @@ import LyModel.Props.C07Completion
 #print axioms LyModel.Props.C07.implicit_exact_tree_of_B
 #print axioms LyModel.Props.C07.implicit_exact_tree_nonfresh_fails
 #print axioms LyModel.Props.C07.valdiff_exact_partial_top
+#print axioms LyModel.Props.C07.validate_idempotent_choice_fix
+#print axioms LyModel.Props.C07.validate_normal_form_fix
+#print axioms LyModel.Props.C07.valdiff_exact_partial_validated_fix
